@@ -5,7 +5,7 @@ package fpgo
 // Bounds: operand length 0..3 (non-empty: 1..3), StreamSets <= 2 keys x <= 2 elements; map iteration order:
 // insertion order or its reverse, chosen once per path (results are compared as sets / by key, so order cannot matter to the oracle).
 
-func c05Len() int { return 3 }
+func c05Len() int { return 3 + vfTier() }
 
 func c05NonEmpty(name string) []int {
 	l := vfIntList(name, c05Len(), 0)
